@@ -184,8 +184,11 @@ CHECKS['C02'] = (
     'address_offsets exact; section_in_segment = the strict containment rule for all field values, and = the binutils macro in mod-2^64 arithmetic under no-overflow '
     '(with a proved wrap counterexample); kernel-checked naming of the p_type/sh_type/ch_type codes the rule uses in every regenerated table; correspondence on systematic geometry recipes',
     'Proof: contents, strings, address mapping and the section-in-segment decision equal the Spec for all inputs of their domain.',
-    'in_segment_eq_C_macro is partial as designed (no-overflow + plain case: .tbss size rule and PT_DYNAMIC/PT_NOTE zero-size clause excluded). zlib behaviour enters through one hypothesis '
-    '(decompress(c, n) returns the first n bytes of the inflated payload). End-to-end composition through openElf/getSection, error-side behaviours (>= 2^63, read(-n), NOBITS+COMPRESSED) and UTF-8 decoding are correspondence-only.',
+    'Whole-file forms compose every contents theorem with C01 (file_data_raw / _nobits / _compressed, file_get_string_*, file_segment_data_*, file_interp_name, file_addr_offsets, '
+    'file_in_segment_strict over any byte string carrying a wfZ description); the error side is proved (offsets / sizes >= 2^63 -> OverflowError resp. ELFParseError, zlib errors propagated, '
+    'declared != inflated size, unknown ch_type). in_segment_eq_C_macro_iff: under fits64 + no-wrap the code equals the WHOLE binutils macro iff two clauses are inert (the .tbss size rule and the '
+    'PT_DYNAMIC/PT_NOTE empty-edge clause, which the code does not implement: counterexample theorems; the property lists the four condition groups the code has). zlib enters through one hypothesis '
+    '(decompress(c, n) returns the first n bytes of the inflated payload). Correspondence-only: UTF-8 decoding, MemoryError for NOBITS sizes below 2^63, compressed sections shorter than a Chdr, the raw stream.',
     'DESIGN.md §6 C02')
 CHECKS['C10'] = (
     'Lean 4 refinement: a state machine over the caches (unit list with CPython bisect, per-unit DIE list/map, parent/terminator links, suspended generators, line-program cache, section and '
